@@ -334,6 +334,11 @@ def scenario_basic(rng, props, fails, stats):
         jacmode = "2-point"
     rec = Rec(p)
     kw = base_kwargs(rng, p, rec, jacmode)
+    if jacmode == "callable" and rng.random() < 0.12:
+        kw["x0"] = kw["x0"].astype(np.float32)        # single-precision start (bounds stay double)
+        kw["x0"] = np.clip(kw["x0"], p.lb, p.ub).astype(np.float32)
+        if np.any(kw["x0"] < p.lb) or np.any(kw["x0"] > p.ub):
+            kw["x0"] = p.x0.copy()
     r = rng.random()
     if r < 0.25:
         kw["ftarget"] = float(p.f(p.x0) - abs(rng.normal()) * 2)
@@ -655,8 +660,16 @@ def scenario_restart_equiv(rng, props, fails, stats):
             if ref is not None and nxt.nit == chain.nit + 1:
                 err = np.max(np.abs(nxt.x - ref)) / max(1.0, np.max(np.abs(ref)))
                 if err > 1e-7:
-                    fails.append(("C06", f"iterate {nxt.nit} after a restart at {chain.nit} differs from the "
-                                         f"uninterrupted run by {err:.2e} (relative)"))
+                    for pid in ("C06", "C07"):
+                        fails.append((pid, f"iterate {nxt.nit} after a restart at {chain.nit} differs from the "
+                                           f"uninterrupted run by {err:.2e} (relative)"))
+                    break
+                st_ref = its[nxt.nit - 1][1]
+                if (nxt.nfev, nxt.njev) != (st_ref.nfev, st_ref.njev):
+                    for pid in ("C06", "C07"):
+                        fails.append((pid, f"counters after a restart at {chain.nit} differ from the uninterrupted run at "
+                                           f"iteration {nxt.nit}: (nfev, njev) = {(nxt.nfev, nxt.njev)} vs "
+                                           f"{(st_ref.nfev, st_ref.njev)}"))
                     break
         else:
             if nxt.hess_inv.sk.shape[0] > mc2:
@@ -1018,7 +1031,7 @@ SCENARIOS = {
     "scaler": (scenario_scaler, {"C17"}),
     "faults": (scenario_faults, {"C20"}),
     "linesearch": (scenario_linesearch, {"C11"}),
-    "restart_equiv": (scenario_restart_equiv, {"C06"}),
+    "restart_equiv": (scenario_restart_equiv, {"C06", "C07"}),
     "update": (scenario_update_identity, {"C13"}),
     "fd": (scenario_fd, {"C16"}),
     "kkt": (scenario_kkt, {"C01"}),
